@@ -28,6 +28,7 @@ func (fc *FuncCtx) applyFnValue(st *State, fv Val, args []Val, resT types.Type) 
 		}
 		r := App(nm+"$"+strings.Join(sg, ".")+">"+sortTag(s), s, ts...)
 		st.assume(fc.typeFacts(r, t))
+		fc.assumeTypeInv(st, r, t)
 		return Val{T: r, Typ: t}
 	}
 	if resT == nil {
